@@ -107,6 +107,12 @@ def c_mathbox(m):
     return '$%s \\mbox{%s $%s$ %s} %s$ ' % (m(), m(), m(), m(), m())
 
 
+@_c('inline')
+def c_loneapos(m):
+    # an apostrophe (and a backquote) that is alone in its run of text, between two elements
+    return "\\emph{%s}'\\textbf{%s} \\emph{%s}`\\textbf{%s} " % (m(), m(), m(), m())
+
+
 @_c('verbatim')
 def c_verbatimend(m):
     # the command-form terminator is ordinary text inside the environment form ('=' marks a raw dash pair for the oracle)
@@ -359,6 +365,8 @@ def structure_problems(doc):
         ispar = lvl == Node.PAR_LEVEL
         if ispar and inpar:
             problems.append('paragraph inside paragraph')
+        if inpar and lo <= lvl <= hi:
+            problems.append('sectioning unit %s inside a paragraph' % n.nodeName)
         if lo <= lvl <= hi:
             for c in n.childNodes:
                 if c.nodeType == Node.TEXT_NODE:
@@ -530,6 +538,14 @@ def judge(src, seq):
         i = text.find(a)
         if i > 0 and (text[i - 1] != LQ or text[i + len(a):i + len(a) + 1] != RQ):
             sub_problems.append((i - 1, 'quotes around %s: %r' % (a, text[max(0, i - 2):i + len(a) + 2])))
+    for mm in re.finditer(r"\\emph\{(wq[a-p]+z)\}(['`])\\textbf\{(wq[a-p]+z)\}", src):
+        a, ch, b = mm.group(1), mm.group(2), mm.group(3)
+        i, j = text.find(a), text.find(b)
+        if i >= 0 and j >= 0:
+            sep = text[i + len(a):j]
+            want_ch = chr(8217) if ch == "'" else chr(8216)
+            if sep != want_ch:
+                sub_problems.append((i + len(a), 'between %s and %s: %r, expected %r' % (a, b, sep, want_ch)))
     fid = None
     if sub_problems and not problems:
         # open finding C07.NO_PAR_NO_CHARSUB applies only if EVERY unsubstituted trigger sits directly in an
